@@ -233,7 +233,7 @@ var targets = []*target{
 		},
 	},
 	{
-		rpc: "ListWasteRecords", keyPath: "id", tagPath: "area", itemsField: "waste_records", tokenKind: "index", newestFirst: true, seeded: 100,
+		rpc: "ListWasteRecords", keyPath: "id", tagPath: "area", itemsField: "wasteRecords", tokenKind: "index", newestFirst: true, seeded: 100,
 		newInst: func(rng *vk.Rand) *inst {
 			model := wastepb.NewModel()
 			srv := wastepb.NewModelServer(model)
